@@ -695,6 +695,9 @@ def run(ctx):
     try:
         c19_conc.stream_d(ctx)
         c19_conc.stream_e(ctx)
+        # really signed segments, the shipped validators in force (the application's default, the shipped checkers)
+        from harness.props import c19_sig
+        c19_sig.stream_f(ctx)
     except Runaway:
         ctx.notes.append('stopped early: the fetcher under test does not terminate on lost Interests')
 
